@@ -234,7 +234,7 @@ PROPS['C11'] = {
                  'Yabgp.C11_tlv_work_bound', 'Yabgp.C11_tlv_work_bound_instances', 'Yabgp.C11_tlv_instances_advance',
                  'Yabgp.C11_tlv_total', 'Yabgp.C11_tlv_split_then_map', 'Yabgp.C11_tlv_nested_work_bound',
                  'Yabgp.C11_ls_attr_nested_work_bound', 'Yabgp.C11_range_bound',
-                 'Yabgp.C11_pmsi_raises_iff', 'Yabgp.C11_pmsi_tunnel_id_raises_iff', 'Yabgp.C11_pmsi_fields'],
+                 'Yabgp.C11_pmsi_raises_iff', 'Yabgp.C11_pmsi_tunnel_id_raises_iff', 'Yabgp.C11_pmsi_fields', 'Yabgp.C11_pmsi_roundtrip'],
     'genagree': ['Yabgp.GenAgree.attr_codes', 'Yabgp.GenAgree.attr_ids', 'Yabgp.GenAgree.update_errors',
                  'Yabgp.gen_loops_covered', 'Yabgp.gen_loops_advance', 'Yabgp.covered_instances_exist',
                  'Yabgp.gen_ls_registry', 'Yabgp.gen_ls_special', 'Yabgp.gen_ls_two_arg', 'Yabgp.gen_ls_no_unpack',
@@ -250,7 +250,8 @@ PROPS['C11'] = {
               'gen_loops.py and proved equal to the covered list); the ~60 straight-line TLV bodies, the MP/EVPN/flowspec/extcommunity '
               'loops (modelled under C07/C17, termination by construction there) and the tunnel-encapsulation decoder have no C11 theorem of their own; '
               'the PMSI tunnel decoder is modelled (Model/Pmsi.lean, compared with PMSITunnel.parse by the decoders suite) and C11_pmsi_raises_iff '
-              'gives the exact set of values on which it raises (all caught by Update.parse_attributes); '
+              'gives the exact set of values on which it raises (all caught by Update.parse_attributes), C11_pmsi_roundtrip relates it to the '
+              'constructor model of C08 (what PMSITunnel.construct writes is decoded back, for labels that fit and addresses whose family survives); '
               'CPU time itself is only measured',
 }
 
